@@ -6,6 +6,29 @@ from .certificate import SECURITY_CODER
 from .certificate_library import CertificateLibrary
 
 
+# Microseconds per unit of the IEEE 1609.2 Duration CHOICE (a year is 31556952 s).
+_DURATION_MICROSECONDS = {
+    "microseconds": 1,
+    "milliseconds": 1_000,
+    "seconds": 1_000_000,
+    "minutes": 60_000_000,
+    "hours": 3_600_000_000,
+    "sixtyHours": 216_000_000_000,
+    "years": 31_556_952_000_000,
+}
+
+
+def _generation_time_within_validity(generation_time: int, validity_period: dict) -> bool:
+    """
+    Check that a Time64 generation time (microseconds since the ITS epoch) lies within
+    a certificate ValidityPeriod (Time32 start in seconds since the ITS epoch + Duration).
+    """
+    start = validity_period["start"] * 1_000_000
+    duration = validity_period["duration"]
+    end = start + duration[1] * _DURATION_MICROSECONDS[duration[0]]
+    return start <= generation_time <= end
+
+
 class VerifyService:
     """
     Class to verify the signature of a message
@@ -167,6 +190,33 @@ class VerifyService:
                         )
             its_aid_bytes = psid.to_bytes(
                 (psid.bit_length() + 7) // 8 or 1, "big")
+            at_tbs = authorization_ticket.certificate["toBeSigned"]
+            # IEEE 1609.2 §5.2.4.2.2: the ITS-AID of the message SHALL be among the
+            # application permissions of the signing authorization ticket.
+            app_permissions = at_tbs.get("appPermissions")
+            if app_permissions is not None and psid not in [
+                entry["psid"] for entry in app_permissions
+            ]:
+                return SNVERIFYConfirm(
+                    report=ReportVerify.INVALID_CERTIFICATE,
+                    certificate_id=authorization_ticket.as_hashedid8(),
+                    its_aid=its_aid_bytes,
+                    its_aid_length=len(its_aid_bytes),
+                    permissions=b'',
+                )
+            # IEEE 1609.2 §5.2.4.2.2: generationTime SHALL lie within the validity
+            # period of the signing authorization ticket.
+            validity_period = at_tbs.get("validityPeriod")
+            if validity_period is not None and not _generation_time_within_validity(
+                header_info["generationTime"], validity_period
+            ):
+                return SNVERIFYConfirm(
+                    report=ReportVerify.INVALID_TIMESTAMP,
+                    certificate_id=authorization_ticket.as_hashedid8(),
+                    its_aid=its_aid_bytes,
+                    its_aid_length=len(its_aid_bytes),
+                    permissions=b'',
+                )
             verification_key = authorization_ticket.certificate["toBeSigned"]["verifyKeyIndicator"][
                 1
             ]
